@@ -405,10 +405,67 @@ func parseGhost(body, path string, line int) (*Clause, error) {
 
 var macroCall = regexp.MustCompile(`\$([A-Za-z0-9_]+)`)
 
-// expandMacros replaces $NAME by the macro body (no arguments; textual).
+// expandMacros replaces $NAME by the macro body, and $NAME(a, b) by the body
+// of a macro declared as "macro NAME(x, y) = body" with x, y replaced
+// (textual, whole identifiers).
 func expandMacros(s string, macros map[string]string) string {
-	for i := 0; i < 10; i++ {
+	// parameterised macros: key "NAME(x,y)"
+	type pm struct {
+		params []string
+		body   string
+	}
+	pms := map[string]pm{}
+	for k, b := range macros {
+		if i := strings.Index(k, "("); i > 0 && strings.HasSuffix(k, ")") {
+			var ps []string
+			for _, p := range strings.Split(k[i+1:len(k)-1], ",") {
+				ps = append(ps, strings.TrimSpace(p))
+			}
+			pms[k[:i]] = pm{ps, b}
+		}
+	}
+	for i := 0; i < 20; i++ {
 		changed := false
+		// parameterised calls first (innermost-last is fine: we re-iterate)
+		for name, m := range pms {
+			for {
+				idx := strings.Index(s, "$"+name+"(")
+				if idx < 0 {
+					break
+				}
+				start := idx + len(name) + 2
+				depth, j := 1, start
+				var args []string
+				last := start
+				for ; j < len(s) && depth > 0; j++ {
+					switch s[j] {
+					case '(', '[':
+						depth++
+					case ')', ']':
+						depth--
+						if depth == 0 {
+							args = append(args, strings.TrimSpace(s[last:j]))
+						}
+					case ',':
+						if depth == 1 {
+							args = append(args, strings.TrimSpace(s[last:j]))
+							last = j + 1
+						}
+					}
+				}
+				if depth != 0 || len(args) != len(m.params) {
+					// malformed: leave it for the parser to report
+					s = s[:idx] + "MACRO_ARITY_ERROR_" + name + s[idx+len(name)+1:]
+					break
+				}
+				body := m.body
+				for k, p := range m.params {
+					body = regexp.MustCompile(`\b`+regexp.QuoteMeta(p)+`\b`).ReplaceAllLiteralString(body, "("+args[k]+")")
+				}
+				s = s[:idx] + "(" + body + ")" + s[j:]
+				changed = true
+			}
+		}
 		s = macroCall.ReplaceAllStringFunc(s, func(m string) string {
 			if b, ok := macros[m[1:]]; ok {
 				changed = true
